@@ -1651,13 +1651,84 @@ def run_setpad(case):
     return []
 
 
+ADDLOOP_TREES = [('837p', '2000A'), ('837p', '2000B'), ('837p', '2300'), ('834', '2000')]
+
+
+def _loops_of(t):
+    out = [t]
+    for c in t.children:
+        if c.type == 'loop':
+            out += _loops_of(c)
+    return out
+
+
+def addloop_cases():
+    """add_loop on EVERY loop instance of the trees (root and descendants) with the opening segment of every child loop the
+    map allows there: afterwards the children of that instance must still stand in map order (by the position of the map
+    node each child was matched to) -- also where a loop's own position differs from that of its first segment (HL loops)"""
+    out = []
+    for doc, loop in ADDLOOP_TREES:
+        t = _fresh(doc, loop)
+        if t is None:
+            continue
+        for li, L in enumerate(_loops_of(t)):
+            for gi, g in enumerate(_map_kids(L.x12_map_node)):
+                if g.is_loop() and _map_kids(g) and _map_kids(g)[0].is_segment():
+                    out.append({'kind': 'addloop', 'doc': doc, 'loop': loop, 'li': li, 'gi': gi})
+    return out
+
+
+def _map_kids(n):
+    """children of a map loop node in map order (loops keep them by position)"""
+    if hasattr(n, 'pos_map'):
+        return [c for pos in sorted(n.pos_map) for c in n.pos_map[pos]]
+    return list(n.children)
+
+
+def _synth_impl(segnode):
+    """a data segment that opens the loop: id plus, where the map qualifies the first element, its first valid code"""
+    first = segnode.get_child_node_by_idx(0)
+    v = 'A1'
+    if first is not None and first.is_element() and getattr(first, 'valid_codes', None):
+        v = first.valid_codes[0]
+    elif first is not None and first.is_composite():
+        sub0 = first.get_child_node_by_idx(0)
+        v = (sub0.valid_codes[0] if getattr(sub0, 'valid_codes', None) else 'A1') + ':B2'
+    if segnode.id == 'HL':
+        return 'HL*9*1*%s*0~' % (segnode.get_child_node_by_idx(2).valid_codes[0] if segnode.get_child_node_by_idx(2).valid_codes else '22')
+    return '%s*%s*B2~' % (segnode.id, v)
+
+
+def run_addloop(case):
+    import pyx12.segment
+    t = _fresh(case['doc'], case['loop'])
+    L = _loops_of(t)[case['li']]
+    g = _map_kids(L.x12_map_node)[case['gi']]
+    text = _synth_impl(_map_kids(g)[0])
+    where = '%s tree %s, loop instance %d (%s): add_loop(%s) for %s' % (case['doc'], case['loop'], case['li'], L.id, text, g.id)
+    pos0 = [c.x12_map_node.pos for c in L.children]
+    if pos0 != sorted(pos0):
+        return []
+    st, r = call(lambda: L.add_loop(pyx12.segment.Segment(text, '~', '*', ':')))
+    if st == 'exc' or r is None:
+        return []          # not addable with this segment (BFS judges refusals)
+    kids_ = [(c.x12_map_node.pos, c.id) for c in L.children]
+    if r.id != g.id:
+        return []          # the segment opened another loop than the one aimed at: positions still judged below
+    if [p_ for p_, _ in kids_] != sorted(p_ for p_, _ in kids_):
+        return [('C10|add_loop|children no longer in map order', where + ': children now at map positions %r' % (kids_,))]
+    if len(kids_) != len(pos0) + 1:
+        return [('C10|add_loop|wrong number of children', where + ': %d children before, %d after' % (len(pos0), len(kids_)))]
+    return []
+
+
 def work_transplant(cases):
     _bind()
     P = core.Part()
     for case in cases:
         P.n += 1
-        P.out('%s|%s|%s' % (case['kind'], case['doc'], case.get('delete') or case.get('filler') or ('forward' if case['a'] < case['b'] else 'backward')))
-        for k, m in (run_prefix(case) if case['kind'] == 'prefix' else run_setpad(case) if case['kind'] == 'setpad' else run_transplant(case)):
+        P.out('%s|%s|%s' % (case['kind'], case['doc'], case.get('delete') or case.get('filler') or case.get('loop') if case['kind'] != 'transplant' else ('forward' if case['a'] < case['b'] else 'backward')))
+        for k, m in (run_prefix(case) if case['kind'] == 'prefix' else run_setpad(case) if case['kind'] == 'setpad' else run_addloop(case) if case['kind'] == 'addloop' else run_transplant(case)):
             P.bad(k, case, m)
     return P
 
@@ -1668,11 +1739,11 @@ def evaluate(case):
         for name in CFG:
             setup(name)
         return run_transplant(case)
-    if case.get('kind') in ('prefix', 'setpad'):
+    if case.get('kind') in ('prefix', 'setpad', 'addloop'):
         _bind()
         for name in CFG:
             setup(name)
-        return run_prefix(case) if case['kind'] == 'prefix' else run_setpad(case)
+        return run_prefix(case) if case['kind'] == 'prefix' else run_setpad(case) if case['kind'] == 'setpad' else run_addloop(case)
     hist = [tup(e) for e in case['hist']]
     ms, im = replay(hist[:-1])
     viols, outcome = step(ms, im, hist[-1])
@@ -1698,10 +1769,11 @@ def run(R):
     for name, width, depth in plan:
         stats.append(search(R, name, width, depth, max_states=400000))
     R.cov['searches'] = stats
-    tc = transplant_cases() + prefix_cases() + setpad_cases()
+    tc = transplant_cases() + prefix_cases() + setpad_cases() + addloop_cases()
     R.pmap(work_transplant, core.chunks(tc, 8))
     R.cov['transplant_cases'] = len(tc)
     R.bounds = {
+        'addloop': 'add_loop on every loop instance (root and descendants) of the trees %r with the opening segment of every child loop its map node allows: the children must stay in map order' % (ADDLOOP_TREES,),
         'setpad': 'for every child segment of every instance of the repeated loops: set the element three positions past its end, then a component (1, 2) of each of the two positions created on the way -- nothing else may change',
         'prefix': 'for every non-anchor child segment of every instance of the repeated loops: add the same segment extended by one element, then delete_segment the longer / the shorter one -- exactly the named one must go',
         'transplant': 'every (source instance, other instance, non-anchor child) of the repeated loops %r: copy the child, add_node it to the other instance, then read (exists/count/get_value of every direct child segment id of both instances through ../), write and delete through ../ -- each law on a fresh tree' % (TRANSPLANT,),
